@@ -57,7 +57,8 @@ class C12:
     id = "C12"
     cases = {"quick": 18, "thorough": 600}
     rule = ("inputs: CoreGen programs (classes with several members and parents, unions through if/match, handle), typed "
-            "expression programs, the repository samples and seeds (fixed list) and 2-file projects made of them. Each input "
+            "expression programs, the repository samples and seeds (fixed list), ~110 verdict-edge programs (mixed Int / Float operators in both "
+            "orders, a field re-declared by a child with another type) and 2-file projects made of them. Each input "
             "is run K times in one process, on T concurrent threads, in P fresh processes, and once after a history of other "
             "inputs in the same process, and once at the end of a history of related programs run on the same thread (the same classes "
             "and functions with Int and Str swapped, the input with a type fault appended, with a syntax fault) (quick K=8, T=4x2, "
